@@ -10,7 +10,12 @@ const YAML_FENCE: &str = "---";
 
 pub fn parse_frontmatter(input: &str) -> Option<FrontMatterSplit> {
     let mut fences = fences(input, YAML_FENCE);
-    let (_, yaml_start) = fences.next()?;
+    let (fence_start, yaml_start) = fences.next()?;
+    // front matter lives at the top of the document: anything other than
+    // blank space before the opening fence means the fences are recipe content
+    if !input[..fence_start].trim().is_empty() {
+        return None;
+    }
     let (yaml_end, cooklang_start) = fences.next()?;
     let yaml_text = &input[yaml_start..yaml_end];
     let cooklang_text = &input[cooklang_start..];
